@@ -55,6 +55,28 @@ Proof. exact (C11.gassner_haibach_damage_one c l). Qed.
 Theorem gassner_haibach_below_knee_inf c l : k2 c = None -> max_amp l < SD c -> gassner_cycles lm_haibach c l = None.
 Proof. exact (C11.gassner_haibach_below_knee_inf c l). Qed.
 
+(* Curves with scatter whose native failure probability is not 50 %: WoehlerCurve.cycles / Fatigue.damage read the curve transformed to
+   50 % (c50), MinerHaibach.lifetime_multiple reads the knee point self.SD of the native curve (cn).  The damage after the code's Gassner
+   cycles is A(cn) / A(c50) ... *)
+Theorem gassner_haibach_split_value c50 cn l : curve_ok c50 -> coll_ok l -> 0 < max_occ l -> SD c50 <= max_amp l ->
+  exists Ng, gassner_cycles_split lm_haibach c50 cn l = Some Ng /\
+             damage_sum (miner_haibach c50) (apply_for Ng l) * lm_haibach c50 l = lm_haibach cn l.
+Proof. exact (C11.gassner_haibach_split_value c50 cn l). Qed.
+
+(* ... which is the proved damage one when the knee points agree (no scatter / native 50 % / lifetime multiple with the knee at 50 %:
+   fixes/C11-haibach-knee-at-50-percent.patch) ... *)
+Theorem gassner_haibach_split_same_knee c50 cn l : SD cn = SD c50 -> k1 cn = k1 c50 ->
+  gassner_cycles_split lm_haibach c50 cn l = gassner_cycles lm_haibach c50 l.
+Proof. exact (C11.gassner_haibach_split_same_knee c50 cn l). Qed.
+
+(* ... and not one otherwise: knee points 1 (native) and 2 (50 %), k_1 = 2, members (1, 1), (2, 1): damage 9/10 *)
+Theorem gassner_haibach_native_knee_refuted :
+  exists c50 cn l, curve_ok c50 /\ curve_ok cn /\ k1 cn = k1 c50 /\ coll_ok l /\ 0 < max_occ l /\ SD c50 <= max_amp l /\
+    exists Ng, gassner_cycles_split lm_haibach c50 cn l = Some Ng /\
+               damage_sum (miner_haibach c50) (apply_for Ng l) = 9 / 10 /\
+               damage_sum (miner_haibach c50) (apply_for Ng l) <> 1.
+Proof. exact C11.gassner_haibach_native_knee_refuted. Qed.
+
 (* Miner elementary: under the hypothesis the proof forces -- the top class is occupied *)
 Theorem gassner_elementary_damage_one c l : curve_ok c -> coll_ok l -> 0 < max_occ l ->
   max_occ l = max_amp l -> (SD c <= max_amp l \/ k2 c = Some (k1 c)) ->
@@ -136,6 +158,9 @@ Print Assumptions damage_member_haibach.
 Print Assumptions damage_member_original.
 Print Assumptions gassner_haibach_damage_one.
 Print Assumptions gassner_haibach_below_knee_inf.
+Print Assumptions gassner_haibach_split_value.
+Print Assumptions gassner_haibach_split_same_knee.
+Print Assumptions gassner_haibach_native_knee_refuted.
 Print Assumptions gassner_elementary_damage_one.
 Print Assumptions gassner_elementary_damage_general.
 Print Assumptions gassner_elementary_empty_top_value.
